@@ -40,10 +40,21 @@ def _watchdog(on: bool):
         signal.setitimer(signal.ITIMER_REAL, 0)
 
 
-def _fire(kind):
+def _fire(kind, node=None, others=()):
     if FAULT["kind"] == kind:
         if FAULT["skip"] <= 0:
             FAULT["kind"] = None
+            # a hook may READ the tree before it refuses (depth limits, naming rules, ...): whatever the library
+            # remembers from these reads must not survive the roll-back
+            for x in [node] + [o for o in others if hasattr(o, "ancestors")]:
+                if x is None:
+                    continue
+                for f in (lambda: x.depth, lambda: x.root, lambda: x.max_depth, lambda: list(x.ancestors),
+                          lambda: x.siblings, lambda: x.children, lambda: x.parent, lambda: x.path_name, lambda: x.sep):
+                    try:
+                        f()
+                    except Exception:  # noqa: BLE001 - BaseNode has no path_name / sep
+                        pass
             raise core.hook_exc(FAULT.get("op"), "user hook: " + kind)
         FAULT["skip"] -= 1
 
@@ -59,29 +70,29 @@ def classes():
 
     class HB(BaseNode):
         def _BaseNode__pre_assign_parent(self, new_parent):
-            _fire("pre")
+            _fire("pre", self, [new_parent])
 
         def _BaseNode__post_assign_parent(self, new_parent):
-            _fire("post")
+            _fire("post", self, [new_parent])
 
         def _BaseNode__pre_assign_children(self, new_children):
-            _fire("pre")
+            _fire("pre", self, list(new_children) if isinstance(new_children, (list, tuple, set)) else [])
 
         def _BaseNode__post_assign_children(self, new_children):
-            _fire("post")
+            _fire("post", self, list(new_children) if isinstance(new_children, (list, tuple, set)) else [])
 
     class HN(Node):
         def _Node__pre_assign_parent(self, new_parent):
-            _fire("pre")
+            _fire("pre", self, [new_parent])
 
         def _Node__post_assign_parent(self, new_parent):
-            _fire("post")
+            _fire("post", self, [new_parent])
 
         def _Node__pre_assign_children(self, new_children):
-            _fire("pre")
+            _fire("pre", self, list(new_children) if isinstance(new_children, (list, tuple, set)) else [])
 
         def _Node__post_assign_children(self, new_children):
-            _fire("post")
+            _fire("post", self, list(new_children) if isinstance(new_children, (list, tuple, set)) else [])
 
     _CLS.update(base=HB, node=HN)
     return _CLS
